@@ -23,7 +23,7 @@ RULE = ("R-score notes, containers (+duration), bars, tracks and compositions: 3
         "(LilyPond). LilyPond text is decoded by an own reader of the emitted subset, MusicXML by xml.etree, and compared entry by "
         "entry with the description. Non-trivial: a score with a dotted or tuplet value or a chord, a key/meter change between bars, "
         "or metadata containing a markup character."
-        ' Also: enharmonic twin and repeated bars, tracks sharing one instrument object, and a second export of the same objects must give the same text and leave the music unchanged; chords that are not in ascending order (after item assignment), entries held in a user subclass of NoteContainer, MIDI instruments of a user subclass.')
+        ' Also: enharmonic twin and repeated bars, tracks sharing one instrument object, and a second export of the same objects must give the same text and leave the music unchanged; chords that are not in ascending order (after item assignment), entries held in a user subclass of NoteContainer, MIDI instruments of a user subclass. A third of the generated compositions carry an e-mail address; all combinations of set / empty title, subtitle, author and e-mail.')
 ASSUMPTIONS = ["LilyPond: a \\times 1/1 group is the identity; whitespace is not compared; header strings contain no \" or \\",
                "MusicXML: part ids only need to be unique and consistent; encoding date, clef and time-modification are not compared; "
                "an empty title/author may be omitted", "the unbounded (0,0) meter is not exported"]
@@ -397,6 +397,12 @@ def sub_mx(ctx, shard, n):
                 mixes.append({"key": "G", "meter": [4, 4], "entries": ents + [{"v": [4, 1, 1, 1], "notes": [["G", 3, 1, 64], ["B", 3, 1, 64]]}]})
         ctx.exhaustive("MusicXML bars mixing tuplet kinds with 2-4 dotted short values", "5 x 3", len(mixes))
         ctx.enumerate("mx_bar", check_mx_bar, mixes)
+        # every combination of set / empty title, subtitle, author and e-mail address (set_title and set_author take two each)
+        one = {"name": "Lead & <Rhythm>", "instr": None, "bars": [{"key": "C", "meter": [4, 4], "entries": [{"v": [1, 0, 1, 1], "notes": [["C", 4, 1, 64]]}]}]}
+        meta = [{"title": t, "subtitle": s_, "author": a, "email": e, "tracks": [one]}
+                for t in ("", "A <Title> & more") for s_ in ("", "Sub 'title'") for a in ("", "J. S. \"Bach\"", "Me") for e in ("", "me@example.org", "<a&b>")]
+        ctx.enumerate("mx_comp", check_mx_comp, meta)
+        ctx.enumerate("ly_comp", check_ly_comp, [m for m in meta if not any(c in m["title"] + m["subtitle"] + m["author"] for c in '"\\')])
 
 
 SUBS = [
